@@ -18,8 +18,12 @@ ASSUMPTIONS = [
 
 
 def gen(rng, tier, no, wide=False):
-    case = G.gen_case(rng, missing_rate=rng.choice([0.0, 0.1, 0.25, 0.4]), sync_rate=rng.choice([0.0, 0.1, 0.2]),
-                      **({"two_threads": True, "nsteps": rng.choice([2, 3])} if rng.random() < 0.2 else {}))
+    more = {"two_threads": True, "nsteps": rng.choice([2, 3])} if rng.random() < 0.2 else {}
+    if rng.random() < 0.12:
+        # rank-specific vocabularies (each rank's own table below 128 symbols, the job-wide one above), several steps and
+        # blocking calls: the synchronisation records are recognised by name id when the last step is trimmed
+        more = {"nranks": rng.choice([2, 3]), "filler": -90, "nsteps": rng.choice([2, 3]), "sync_rate": 0.3}
+    case = G.gen_case(rng, **{**{"missing_rate": rng.choice([0.0, 0.1, 0.25, 0.4]), "sync_rate": rng.choice([0.0, 0.1, 0.2])}, **more})
     # Kineto-style GPU-side sync records on stream -1, paired with their host call by correlation
     for r, ev in case["ranks"].items():
         extra = []
